@@ -36,6 +36,7 @@ func NewPacketConn(ioc *IO, network, addr string, opts ...sonicopts.Option) (Pac
 	}
 
 	if err := syscall.Bind(fd, internal.ToSockaddr(localAddr)); err != nil {
+		_ = syscall.Close(fd)
 		return nil, err
 	}
 
